@@ -45,7 +45,7 @@ theorem sem_every_not_some_not (sm : Summation) (bs : Binds) (t : Expr) (c : Ctx
     Spec.sem sm (.everyE bs t) c = Spec.sem sm (.fn1 .not_ (.someE bs (.fn1 .not_ t))) c := by
   simp only [Spec.sem, semEvery_eq_not_semSome]
   have : (fun c' => ((Spec.sem sm t c').bind Spec.ebv).map not)
-      = (fun c' => ((Spec.sem sm t c').bind (Spec.applyFn1 sm c'.doc .not_)).bind Spec.ebv) := by
+      = (fun c' => ((Spec.sem sm t c').bind (Spec.applyFn1 sm c'.coll c'.doc .not_)).bind Spec.ebv) := by
     funext c'
     cases Spec.sem sm t c' with
     | error e => rfl
@@ -55,7 +55,7 @@ theorem sem_every_not_some_not (sm : Summation) (bs : Binds) (t : Expr) (c : Ctx
       | error e => rfl
       | ok b => cases b <;> rfl
   rw [this]
-  cases semSome sm bs c (fun c' => ((Spec.sem sm t c').bind (Spec.applyFn1 sm c'.doc .not_)).bind Spec.ebv) with
+  cases semSome sm bs c (fun c' => ((Spec.sem sm t c').bind (Spec.applyFn1 sm c'.coll c'.doc .not_)).bind Spec.ebv) with
   | error e => rfl
   | ok b => cases b <;> rfl
 
@@ -126,20 +126,23 @@ theorem numEq_refl (a : Atom) (hk : kind a = .num) (hn : a ≠ .dbl .nan) : numE
   | dbl d => cases d <;> simp_all [numEq, isDouble, eqD, toDouble, D.val, XV.eqv]
   | _ => simp [kind] at hk
 
-theorem sameValue_refl (a : Atom) (hnode : kind a ≠ .node) : sameValue a a = true := by
+theorem collEq_refl (cl : Coll) (s : String) : collEq cl s s = true := by
+  cases cl <;> simp [collEq]
+
+theorem sameValue_refl (cl : Coll) (a : Atom) (hnode : kind a ≠ .node) : sameValue cl a a = true := by
   unfold sameValue
   by_cases hn : a = .dbl .nan
   · subst hn; simp
   · cases a with
     | node i => simp [kind] at hnode
-    | int n => simp [eqAtom?, kind, numEq_refl (.int n) rfl (by simp)]
-    | dec m k => simp [eqAtom?, kind, numEq_refl (.dec m k) rfl (by simp)]
-    | dbl d => simp [eqAtom?, kind, numEq_refl (.dbl d) rfl hn]
-    | str s => simp [eqAtom?, kind]
-    | untyped s => simp [eqAtom?, kind]
-    | bool b => simp [eqAtom?, kind]
+    | int n => simp [eqAtomC?, eqAtom?, kind, collEq_refl, numEq_refl (.int n) rfl (by simp)]
+    | dec m k => simp [eqAtomC?, eqAtom?, kind, collEq_refl, numEq_refl (.dec m k) rfl (by simp)]
+    | dbl d => simp [eqAtomC?, eqAtom?, kind, collEq_refl, numEq_refl (.dbl d) rfl hn]
+    | str s => simp [eqAtomC?, eqAtom?, kind, collEq_refl]
+    | untyped s => simp [eqAtomC?, eqAtom?, kind, collEq_refl]
+    | bool b => simp [eqAtomC?, eqAtom?, kind, collEq_refl]
 
-theorem distinctFrom_sublist (xs : Seq) : ∀ kept, List.Sublist (Spec.distinctFrom kept xs) xs := by
+theorem distinctFrom_sublist (cl : Coll) (xs : Seq) : ∀ kept, List.Sublist (Spec.distinctFrom cl kept xs) xs := by
   induction xs with
   | nil => intro kept; exact List.Sublist.slnil
   | cons x xs ih =>
@@ -150,7 +153,7 @@ theorem distinctFrom_sublist (xs : Seq) : ∀ kept, List.Sublist (Spec.distinctF
     · exact (ih _).cons₂ x
 
 /-- no result equals a value kept before it (in particular no two results are equal) -/
-theorem distinctFrom_fresh (xs : Seq) : ∀ kept, ∀ r ∈ Spec.distinctFrom kept xs, ∀ k ∈ kept, sameValue k r = false := by
+theorem distinctFrom_fresh (cl : Coll) (xs : Seq) : ∀ kept, ∀ r ∈ Spec.distinctFrom cl kept xs, ∀ k ∈ kept, sameValue cl k r = false := by
   induction xs with
   | nil => intro kept r hr; cases hr
   | cons x xs ih =>
@@ -161,13 +164,13 @@ theorem distinctFrom_fresh (xs : Seq) : ∀ kept, ∀ r ∈ Spec.distinctFrom ke
     · rename_i hnot
       rcases List.mem_cons.mp hr with h | h
       · subst h
-        cases hs : sameValue k r with
+        cases hs : sameValue cl k r with
         | false => rfl
         | true => exact absurd (List.any_eq_true.mpr ⟨k, hk, hs⟩) hnot
       · exact ih _ r h k (List.mem_append_left _ hk)
 
-theorem distinctFrom_pairwise (xs : Seq) : ∀ kept,
-    List.Pairwise (fun a b => sameValue a b = false) (Spec.distinctFrom kept xs) := by
+theorem distinctFrom_pairwise (cl : Coll) (xs : Seq) : ∀ kept,
+    List.Pairwise (fun a b => sameValue cl a b = false) (Spec.distinctFrom cl kept xs) := by
   induction xs with
   | nil => intro kept; exact List.Pairwise.nil
   | cons x xs ih =>
@@ -177,11 +180,11 @@ theorem distinctFrom_pairwise (xs : Seq) : ∀ kept,
     · exact ih kept
     · apply List.Pairwise.cons
       · intro r hr
-        exact distinctFrom_fresh xs (kept ++ [x]) r hr x (List.mem_append_right _ List.mem_cons_self)
+        exact distinctFrom_fresh cl xs (kept ++ [x]) r hr x (List.mem_append_right _ List.mem_cons_self)
       · exact ih _
 
-theorem distinctFrom_covers (xs : Seq) (hnode : ∀ z ∈ xs, kind z ≠ .node) : ∀ kept, ∀ z ∈ xs,
-    ∃ y ∈ kept ++ Spec.distinctFrom kept xs, sameValue y z = true := by
+theorem distinctFrom_covers (cl : Coll) (xs : Seq) (hnode : ∀ z ∈ xs, kind z ≠ .node) : ∀ kept, ∀ z ∈ xs,
+    ∃ y ∈ kept ++ Spec.distinctFrom cl kept xs, sameValue cl y z = true := by
   induction xs with
   | nil => intro kept z hz; cases hz
   | cons x xs ih =>
@@ -197,7 +200,7 @@ theorem distinctFrom_covers (xs : Seq) (hnode : ∀ z ∈ xs, kind z ≠ .node) 
       · exact ih' kept z h
     · rcases List.mem_cons.mp hz with h | h
       · subst h
-        exact ⟨z, List.mem_append_right _ List.mem_cons_self, sameValue_refl z (hnode z List.mem_cons_self)⟩
+        exact ⟨z, List.mem_append_right _ List.mem_cons_self, sameValue_refl cl z (hnode z List.mem_cons_self)⟩
       · obtain ⟨y, hy, hyz⟩ := ih' (kept ++ [x]) z h
         refine ⟨y, ?_, hyz⟩
         simp only [List.mem_append, List.mem_cons, List.not_mem_nil, or_false] at hy ⊢
@@ -264,11 +267,11 @@ theorem atomized_ints (doc : List String) (l : List Int) :
   | nil => rfl
   | cons a as ih => simp [atomized] at ih ⊢
 
-theorem fnMinMax_ints (doc : List String) (n : Int) (ns : List Int) :
-    fnMinMax doc true ((n :: ns).map Atom.int)
+theorem fnMinMax_ints (cl : Coll) (doc : List String) (n : Int) (ns : List Int) :
+    fnMinMax cl doc true ((n :: ns).map Atom.int)
       = .ok [.int (extremum (fun x y => decide (x < y)) true n ns)] := by
   rw [fnMinMax_eq, Spec.fnMinMax, atomized_ints, castUntyped_ints]
-  show Spec.minMaxCore true ((n :: ns).map Atom.int) = _
+  show Spec.minMaxCore cl true ((n :: ns).map Atom.int) = _
   have h0 : outsideAgg ((n :: ns).map Atom.int) = false := by
     unfold outsideAgg; rw [List.any_eq_false]; intro x hx
     obtain ⟨k, _, rfl⟩ := List.mem_map.mp hx; simp
